@@ -74,6 +74,34 @@ Section InstInd.
     end.
 End InstInd.
 
+(* ---------- the wiring the loop relies on (what the translator reads off the current source) ---------- *)
+Definition W_EXPECTED : wiring :=
+  mkwiring
+    [(PtEnum, PrEnumByName); (PtChoice, PrChoice); (PtTuple, PrTuple true); (PtBool, PrIdentity); (PtList, PrListOfTuple);
+     (PtSubparser, PrIdentity); (PtOptional, PrOptTuple); (PtNotBuiltin, PrCallType)]
+    [DManual; DSubgroup; DParent; DFieldDefault; DFactory; DStoreTrue; DStoreFalse]
+    true
+    [GOptional; GDefaultNone; GDefaultsAllNone]
+    [CCtor; CCli] NmWithoutRoot NmDefault [NmWithoutRoot].
+
+(* postprocess under that wiring, written out (Leaf.v's postprocess covers what a parse can produce; the remaining shapes a
+   default can have are listed first) *)
+Definition post_ref (t : ty) (x : value) : res value :=
+  match t, x with
+  | TEnum ms, VStr s => if str_in s ms then Ok (VEnum s) else Err (Raise "KeyError")
+  | TPath, VStr s => Ok (VPath s)
+  | TList _, VTup vs => Ok (VList vs)
+  | TTupFix _, VNone | TTupVar _, VNone => Ok VNone
+  | TTupFix _, VList _ | TTupVar _, VList _ | TTupFix _, VTup _ | TTupVar _, VTup _ => Ok (postprocess t (to_raw x))
+  | TTupFix _, _ | TTupVar _, _ => Err (Raise "OutOfModel")
+  | _, _ => Ok (postprocess t (to_raw x))
+  end.
+
+Lemma post_expected t x : post_value W_EXPECTED t x = post_ref t x.
+Proof.
+  destruct t as [| | | | |ms|cs|u|ts|u|u]; destruct x; try reflexivity; destruct u; reflexivity.
+Qed.
+
 Lemma map_fst_retag {A B} (f : A -> B) (xs : list (string * A)) :
   map fst (map (fun kv => (fst kv, f (snd kv))) xs) = map fst xs.
 Proof. induction xs as [|[n a] r IH]; [reflexivity|]. cbn [map fst snd]. rewrite IH. reflexivity. Qed.
@@ -84,7 +112,7 @@ Section Generic.
   Variable enc : list (string * erule).
   Variable exts : list (string * codec).
   Variable edn : bool.
-  Variable tng : bool.
+  Variable W : wiring.
   Hypothesis Henum : assoc "Enum" enc = Some EName.
   Hypothesis Hpath : assoc "PathLike" enc = Some EFspath.
   Hypothesis Hlist : assoc "list" enc = Some ESeq.
@@ -93,11 +121,26 @@ Section Generic.
                        assoc sfx exts = Some CJson \/ assoc sfx exts = Some CYaml \/ assoc sfx exts = Some CPickle.
 
   Let enc' := encode_cfg enc.
-  Let fin := finish_default str2bool emc edn tng.
-  Let vvc := value_via_config str2bool emc edn tng.
+  Hypothesis HW : W = W_EXPECTED.
+
+  Let fin := finish_default str2bool emc edn W.
+  Let vvc := value_via_config str2bool emc edn W.
 
   (* what a value is read back as: encode, then load *)
   Definition reload (v : value) : value := decode (enc' v).
+
+  (* ---------- the interpreted tables, under the expected wiring ---------- *)
+  Lemma fin_ref t d :
+    fin t d = bind (argparse_default str2bool emc (arg_options t) (as_argparse_default edn t d)) (post_ref t).
+  Proof.
+    unfold fin, finish_default. rewrite HW.
+    destruct (argparse_default str2bool emc (arg_options t) (as_argparse_default edn t d)); [|reflexivity].
+    cbn [bind]. apply post_expected.
+  Qed.
+
+  Lemma field_default_ref defn v :
+    field_default W defn v = match v with VNone => match defn with Some d => d | None => VNone end | _ => v end.
+  Proof. rewrite HW. destruct v; destruct defn; reflexivity. Qed.
 
   (* ---------- encode then load ---------- *)
   Lemma reload_plain u v : plain_item u = true -> has_type v u = true -> reload v = v.
@@ -175,7 +218,7 @@ Section Generic.
   Lemma finish_live t d :
     cfg_type t = true -> has_type d t = true -> d <> VNone -> fin t d = Ok d.
   Proof.
-    intros Hc Ht Hn. unfold fin, finish_default.
+    intros Hc Ht Hn. rewrite fin_ref.
     destruct t as [| | | | |ms|cs|u|ts|u|u]; try discriminate Hc.
     - destruct d; try discriminate Ht. rewrite as_default_not_enum by exact I. reflexivity.
     - destruct d; try discriminate Ht. rewrite as_default_not_enum by exact I. reflexivity.
@@ -198,7 +241,7 @@ Section Generic.
   (* scalars: a str read from the file re-enters through the action's type= converter and postprocess, which invert the encoding *)
   Lemma finish_reload_scalar t v : is_item t = true -> has_type v t = true -> fin t (reload v) = Ok v.
   Proof.
-    intros Hi Ht. unfold fin, finish_default.
+    intros Hi Ht. rewrite fin_ref.
     destruct t; try discriminate Hi; destruct v; try discriminate Ht;
       try (rewrite as_default_not_enum by exact I); try reflexivity.
     - rewrite reload_path. reflexivity.
@@ -208,7 +251,7 @@ Section Generic.
 
   Lemma finish_reload_opt_scalar u v : is_item u = true -> has_type v u = true -> fin (TOpt u) (reload v) = Ok v.
   Proof.
-    intros Hi Ht. unfold fin, finish_default. rewrite as_default_not_enum by exact I.
+    intros Hi Ht. rewrite fin_ref. rewrite as_default_not_enum by exact I.
     destruct u; try discriminate Hi; destruct v; try discriminate Ht; try reflexivity.
     - rewrite reload_path. reflexivity.
     - rewrite reload_enum. cbn [has_type] in Ht. cbn. rewrite Ht. reflexivity.
@@ -216,19 +259,19 @@ Section Generic.
 
   (* containers: the list read from the file is used as it is; postprocess only fixes the outer constructor *)
   Lemma finish_list u l : fin (TList u) (VList l) = Ok (VList l).
-  Proof. unfold fin, finish_default. rewrite as_default_not_enum by exact I. reflexivity. Qed.
+  Proof. rewrite fin_ref. rewrite as_default_not_enum by exact I. reflexivity. Qed.
   Lemma finish_tupfix ts l : fin (TTupFix ts) (VList l) = Ok (VTup l).
-  Proof. unfold fin, finish_default. rewrite as_default_not_enum by exact I. reflexivity. Qed.
+  Proof. rewrite fin_ref. rewrite as_default_not_enum by exact I. reflexivity. Qed.
   Lemma finish_tupvar u l : fin (TTupVar u) (VList l) = Ok (VTup l).
-  Proof. unfold fin, finish_default. rewrite as_default_not_enum by exact I. reflexivity. Qed.
+  Proof. rewrite fin_ref. rewrite as_default_not_enum by exact I. reflexivity. Qed.
   Lemma finish_opt_list u l : fin (TOpt (TList u)) (VList l) = Ok (VList l).
-  Proof. unfold fin, finish_default. rewrite as_default_not_enum by exact I. reflexivity. Qed.
+  Proof. rewrite fin_ref. rewrite as_default_not_enum by exact I. reflexivity. Qed.
   Lemma finish_opt_tupfix ts l : fin (TOpt (TTupFix ts)) (VList l) = Ok (VTup l).
-  Proof. unfold fin, finish_default. rewrite as_default_not_enum by exact I. reflexivity. Qed.
+  Proof. rewrite fin_ref. rewrite as_default_not_enum by exact I. reflexivity. Qed.
   Lemma finish_opt_tupvar u l : fin (TOpt (TTupVar u)) (VList l) = Ok (VTup l).
-  Proof. unfold fin, finish_default. rewrite as_default_not_enum by exact I. reflexivity. Qed.
+  Proof. rewrite fin_ref. rewrite as_default_not_enum by exact I. reflexivity. Qed.
   Lemma finish_opt_none u : fin (TOpt u) VNone = Ok VNone.
-  Proof. unfold fin, finish_default. rewrite as_default_not_enum by exact I. destruct u; reflexivity. Qed.
+  Proof. rewrite fin_ref. rewrite as_default_not_enum by exact I. destruct u; reflexivity. Qed.
 
   Lemma reload_not_none v : v <> VNone -> reload v <> VNone.
   Proof.
@@ -242,7 +285,7 @@ Section Generic.
 
   Lemma vvc_nonnull t defn v : v <> VNone -> vvc t defn (enc' v) = fin t (reload v).
   Proof.
-    intros Hn. apply reload_not_none in Hn. unfold vvc, value_via_config. fold (reload v).
+    intros Hn. apply reload_not_none in Hn. unfold vvc, value_via_config. fold (reload v). rewrite field_default_ref.
     destruct (reload v); try reflexivity. exfalso. apply Hn. reflexivity.
   Qed.
 
@@ -251,7 +294,7 @@ Section Generic.
     | Some VNone | None => match t, defn with TOpt _, _ => fin t VNone | _, Some VNone => fin t VNone | _, _ => Err (Exit 2) end
     | Some d => fin t d
     end.
-  Proof. unfold vvc, value_via_config. cbn. destruct defn as [d|]; [destruct d|]; reflexivity. Qed.
+  Proof. unfold vvc, value_via_config. rewrite field_default_ref. cbn [enc' encode_cfg decode]. destruct defn as [d|]; [destruct d|]; reflexivity. Qed.
 
   (* ---------- one field, every type of the grammar: exactly what comes back ---------- *)
   Definition comes_back (defn : option value) (v : value) : value :=
@@ -333,17 +376,21 @@ Section Generic.
 
   (* ---------- trees of dataclasses: the loop composes leaf by leaf ---------- *)
   Let tod := to_dict enc.
-  Let ld := load_cfg str2bool emc edn tng.
+  Let ld := load_cfg str2bool emc edn W.
 
   (* every leaf of the instance comes back unchanged through its own field; names are distinct in every class *)
   Fixpoint loops (s : schema) (x : inst) {struct s} : Prop :=
     match s, x with
     | SLeaf t defn, ILeaf v => vvc t defn (enc' v) = Ok v
     | SNode fs, INode xs => NoDup (map fst fs) /\ all2P loops fs xs
-    | SOpt s', ILeaf VNone => absent_err str2bool emc edn tng s' = None      (* an Optional member that is None *)
+    | SOpt s', ILeaf VNone => absent_err str2bool emc edn W s' = None      (* an Optional member that is None *)
     | SOpt s', INode _ => loops s' x    (* ... that holds an instance *)
     | _, _ => False
     end.
+
+  (* a section of the file is recorded as the wrapper's own default, which defeats the "member is None" guard *)
+  Lemma guard_defeated : guard_holds W true = false.
+  Proof. rewrite HW. reflexivity. Qed.
 
   Lemma load_fields_ok kvs : forall l1 l2,
     all2P loops l1 l2 ->
@@ -381,28 +428,29 @@ Section Generic.
       + apply in_map_iff. exists (n, x). split; [reflexivity|exact Hin].
     - intros s IH x H. destruct x as [v|xs|w]; try exact (False_ind _ H).
       + destruct v; try exact (False_ind _ H). cbn [loops] in H. unfold ld, tod. cbn [to_dict encode_cfg load_cfg]. rewrite H. reflexivity.
-      + cbn [loops] in H. specialize (IH (INode xs) H). unfold ld, tod in IH |- *. cbn [to_dict load_cfg] in IH |- *. exact IH.
+      + cbn [loops] in H. specialize (IH (INode xs) H). unfold ld, tod in IH |- *. cbn [to_dict] in IH |- *.
+        cbn [load_cfg]. rewrite guard_defeated. cbn [andb]. exact IH.
   Qed.
 
   (* with the None guard in postprocess' tuple branch, the fields of a None member are processed without error *)
-  Hypothesis Htng : tng = true.
   Lemma as_default_none t : as_argparse_default edn t VNone = VNone.
   Proof. unfold as_argparse_default. destruct edn; [destruct t|]; reflexivity. Qed.
 
-  Lemma member_loads_ok : forall s, member_loads s = true -> absent_err str2bool emc edn tng s = None.
+  Lemma member_loads_ok : forall s, member_loads s = true -> absent_err str2bool emc edn W s = None.
   Proof.
-    apply (schema_nested_ind (fun s => member_loads s = true -> absent_err str2bool emc edn tng s = None)).
+    apply (schema_nested_ind (fun s => member_loads s = true -> absent_err str2bool emc edn W s = None)).
     - intros t defn H. cbn [absent_err].
-      assert (Hnone : finish_default str2bool emc edn tng t VNone = Ok VNone).
-      { destruct t; try (unfold finish_default; rewrite as_default_none; cbn; try rewrite Htng; reflexivity).
+      assert (Hnone : fin t VNone = Ok VNone).
+      { destruct t; try (rewrite fin_ref; rewrite as_default_none; reflexivity).
         apply finish_opt_none. }
-      destruct defn as [d|]; cbn [member_loads field_default] in *.
+      change (finish_default str2bool emc edn W) with fin. rewrite field_default_ref.
+      destruct defn as [d|]; cbn [member_loads] in *.
       + destruct (match d with VNone => true | _ => false end) eqn:Ed.
         * destruct d; try discriminate Ed. rewrite Hnone. reflexivity.
         * assert (Hd : d <> VNone) by (intro E; subst d; discriminate Ed).
           assert (H' : cfg_type t && has_type d t = true) by (destruct d; try exact H; discriminate Ed).
           apply andb_true_iff in H'. destruct H' as [Hc Ht].
-          pose proof (finish_live t d Hc Ht Hd) as Hl. unfold fin in Hl.
+          pose proof (finish_live t d Hc Ht Hd) as Hl.
           destruct d; try (rewrite Hl; reflexivity); discriminate Ed.
       + rewrite Hnone. reflexivity.
     - intros fs IH H. cbn [member_loads absent_err] in *.
@@ -462,22 +510,33 @@ Section Generic.
 
   Theorem tree_loop sfx s x :
     str_in sfx four_suffixes = true -> in_quantifier s x = true -> side_conditions s x = true ->
-    config_loop str2bool emc enc exts edn tng sfx s x = Ok x.
+    config_loop str2bool emc enc exts edn W sfx s x = Ok x.
   Proof.
     intros Hs Hq Hc. unfold config_loop. fold tod. rewrite (roundtrip_plain sfx (tod x) Hs (to_dict_plain x)).
     cbn [bind]. apply tree_compose. apply quantifier_loops; assumption.
   Qed.
 
-  (* the destination-keyed file of ArgumentParser.add_arguments(cls, dest) carries the same section *)
-  Theorem rooted_same dest sfx s x :
+  (* every route gives what the plain loop gives: constructor config_path= / --config_path, parse() with the un-rooted file (re-rooted by
+     set_defaults under its WITHOUT_ROOT default) / ArgumentParser + add_arguments(cls, dest) with the file keyed by dest *)
+  Lemma applies_all via : applies W via = true.
+  Proof. rewrite HW. destruct via; reflexivity. Qed.
+  Lemma rerooted_parse : rerooted W AParse = true.
+  Proof. rewrite HW. reflexivity. Qed.
+  Lemma rerooted_parser : rerooted W AParser = false.
+  Proof. rewrite HW. reflexivity. Qed.
+
+  Theorem routes_same via a dest sfx s x :
     str_in sfx four_suffixes = true ->
-    config_loop_rooted str2bool emc enc exts edn tng dest sfx s x = config_loop str2bool emc enc exts edn tng sfx s x.
+    config_run str2bool emc enc exts edn W via a dest sfx s x = config_loop str2bool emc enc exts edn W sfx s x.
   Proof.
-    intros Hs. unfold config_loop_rooted, config_loop. fold tod.
-    rewrite (roundtrip_plain sfx (tod x) Hs (to_dict_plain x)).
-    rewrite (roundtrip_plain sfx (DDict [(dest, tod x)]) Hs).
-    - cbn [bind assoc]. rewrite String.eqb_refl. reflexivity.
-    - cbn [doc_plain forallb snd]. rewrite to_dict_plain. reflexivity.
+    intros Hs. unfold config_run, config_loop. fold tod. rewrite applies_all. cbn [negb].
+    destruct a.
+    - rewrite rerooted_parse. rewrite (roundtrip_plain sfx (tod x) Hs (to_dict_plain x)).
+      cbn [bind assoc]. rewrite String.eqb_refl. reflexivity.
+    - rewrite rerooted_parser. rewrite (roundtrip_plain sfx (tod x) Hs (to_dict_plain x)).
+      rewrite (roundtrip_plain sfx (DDict [(dest, tod x)]) Hs).
+      + cbn [bind assoc]. rewrite String.eqb_refl. reflexivity.
+      + cbn [doc_plain forallb snd]. rewrite to_dict_plain. reflexivity.
   Qed.
 
   (* ---------- named special cases ---------- *)
@@ -556,7 +615,7 @@ Section Generic.
 
   Theorem tree_meets_spec sfx s x :
     str_in sfx four_suffixes = true -> in_quantifier s x = true -> side_conditions s x = true ->
-    spec_loop s x (config_loop str2bool emc enc exts edn tng sfx s x) = true.
+    spec_loop s x (config_loop str2bool emc enc exts edn W sfx s x) = true.
   Proof.
     intros Hs Hq Hc. rewrite (tree_loop sfx s x Hs Hq Hc). unfold spec_loop.
     rewrite inst_eqb_refl, (quantifier_typed s x Hq). reflexivity.
@@ -568,7 +627,7 @@ Lemma gen_enum : assoc "Enum" encode_table_gen = Some EName. Proof. vm_compute. 
 Lemma gen_path : assoc "PathLike" encode_table_gen = Some EFspath. Proof. vm_compute. reflexivity. Qed.
 Lemma gen_list : assoc "list" encode_table_gen = Some ESeq. Proof. vm_compute. reflexivity. Qed.
 Lemma gen_tuple : assoc "tuple" encode_table_gen = Some ESeq. Proof. vm_compute. reflexivity. Qed.
-Lemma gen_tng : tuple_none_guard_gen = true. Proof. reflexivity. Qed.
+Lemma gen_wiring : wiring_gen = W_EXPECTED. Proof. reflexivity. Qed.
 Lemma gen_exts : forall sfx, str_in sfx four_suffixes = true ->
   assoc sfx extensions_gen = Some CJson \/ assoc sfx extensions_gen = Some CYaml \/ assoc sfx extensions_gen = Some CPickle.
 Proof.
@@ -579,7 +638,7 @@ Qed.
 
 Definition reload_gen := reload encode_table_gen.
 Definition comes_back_gen := comes_back encode_table_gen.
-Definition loops_gen := loops str2bool_gen enum_miss_cls_gen encode_table_gen enum_default_as_name_gen tuple_none_guard_gen.
+Definition loops_gen := loops str2bool_gen enum_miss_cls_gen encode_table_gen enum_default_as_name_gen wiring_gen.
 
 (* the property, stated in full for one field *)
 Definition loop_statement : Prop :=
@@ -615,71 +674,71 @@ Proof. vm_compute. reflexivity. Qed.
 Theorem leaf_characterised_gen : forall t defn v,
   cfg_type t = true -> defn_typed t defn = true -> has_type v t = true ->
   value_via_config_gen t defn (encode_cfg_gen v) = Ok (comes_back_gen defn v).
-Proof. exact (leaf_characterised str2bool_gen enum_miss_cls_gen encode_table_gen enum_default_as_name_gen tuple_none_guard_gen gen_enum gen_path gen_list gen_tuple). Qed.
+Proof. exact (leaf_characterised str2bool_gen enum_miss_cls_gen encode_table_gen enum_default_as_name_gen wiring_gen gen_enum gen_path gen_list gen_tuple gen_wiring). Qed.
 
 Theorem leaf_partial_gen : forall t defn v,
   cfg_type t = true -> defn_typed t defn = true -> has_type v t = true ->
   items_plain t = true -> not_null_over_default defn v = true ->
   value_via_config_gen t defn (encode_cfg_gen v) = Ok v.
-Proof. exact (leaf_partial str2bool_gen enum_miss_cls_gen encode_table_gen enum_default_as_name_gen tuple_none_guard_gen gen_enum gen_path gen_list gen_tuple). Qed.
+Proof. exact (leaf_partial str2bool_gen enum_miss_cls_gen encode_table_gen enum_default_as_name_gen wiring_gen gen_enum gen_path gen_list gen_tuple gen_wiring). Qed.
 
 Theorem scalar_loop_gen : forall t defn v,
   is_item t = true -> has_type v t = true -> value_via_config_gen t defn (encode_cfg_gen v) = Ok v.
-Proof. exact (scalar_loop str2bool_gen enum_miss_cls_gen encode_table_gen enum_default_as_name_gen tuple_none_guard_gen gen_enum gen_path gen_list gen_tuple). Qed.
+Proof. exact (scalar_loop str2bool_gen enum_miss_cls_gen encode_table_gen enum_default_as_name_gen wiring_gen gen_enum gen_path gen_list gen_tuple gen_wiring). Qed.
 
 Theorem tuple_loop_gen : forall ts defn vs,
   forallb plain_item ts = true -> has_type (VTup vs) (TTupFix ts) = true ->
   value_via_config_gen (TTupFix ts) defn (encode_cfg_gen (VTup vs)) = Ok (VTup vs).
-Proof. exact (tuple_loop str2bool_gen enum_miss_cls_gen encode_table_gen enum_default_as_name_gen tuple_none_guard_gen gen_enum gen_path gen_list gen_tuple). Qed.
+Proof. exact (tuple_loop str2bool_gen enum_miss_cls_gen encode_table_gen enum_default_as_name_gen wiring_gen gen_enum gen_path gen_list gen_tuple gen_wiring). Qed.
 
 Theorem optional_none_gen : forall u defn,
   match defn with Some VNone | None => True | _ => False end ->
   value_via_config_gen (TOpt u) defn (encode_cfg_gen VNone) = Ok VNone.
-Proof. exact (optional_none str2bool_gen enum_miss_cls_gen encode_table_gen enum_default_as_name_gen tuple_none_guard_gen). Qed.
+Proof. exact (optional_none str2bool_gen enum_miss_cls_gen encode_table_gen enum_default_as_name_gen wiring_gen gen_wiring). Qed.
 
 Theorem optional_some_gen : forall u defn v,
   is_item u = true -> has_type v u = true -> value_via_config_gen (TOpt u) defn (encode_cfg_gen v) = Ok v.
-Proof. exact (optional_some str2bool_gen enum_miss_cls_gen encode_table_gen enum_default_as_name_gen tuple_none_guard_gen gen_enum gen_path gen_list gen_tuple). Qed.
+Proof. exact (optional_some str2bool_gen enum_miss_cls_gen encode_table_gen enum_default_as_name_gen wiring_gen gen_enum gen_path gen_list gen_tuple gen_wiring). Qed.
 
 Theorem null_falls_back_gen : forall u d,
   cfg_type (TOpt u) = true -> has_type d (TOpt u) = true -> d <> VNone ->
   value_via_config_gen (TOpt u) (Some d) (encode_cfg_gen VNone) = Ok d.
-Proof. exact (null_falls_back str2bool_gen enum_miss_cls_gen encode_table_gen enum_default_as_name_gen tuple_none_guard_gen). Qed.
+Proof. exact (null_falls_back str2bool_gen enum_miss_cls_gen encode_table_gen enum_default_as_name_gen wiring_gen gen_wiring). Qed.
 
 Theorem list_comes_back_gen : forall u defn vs,
   value_via_config_gen (TList u) defn (encode_cfg_gen (VList vs)) = Ok (VList (map reload_gen vs)).
-Proof. exact (list_comes_back str2bool_gen enum_miss_cls_gen encode_table_gen enum_default_as_name_gen tuple_none_guard_gen gen_enum gen_path gen_list gen_tuple). Qed.
+Proof. exact (list_comes_back str2bool_gen enum_miss_cls_gen encode_table_gen enum_default_as_name_gen wiring_gen gen_enum gen_path gen_list gen_tuple gen_wiring). Qed.
 Theorem tupfix_comes_back_gen : forall ts defn vs,
   value_via_config_gen (TTupFix ts) defn (encode_cfg_gen (VTup vs)) = Ok (VTup (map reload_gen vs)).
-Proof. exact (tupfix_comes_back str2bool_gen enum_miss_cls_gen encode_table_gen enum_default_as_name_gen tuple_none_guard_gen gen_enum gen_path gen_list gen_tuple). Qed.
+Proof. exact (tupfix_comes_back str2bool_gen enum_miss_cls_gen encode_table_gen enum_default_as_name_gen wiring_gen gen_enum gen_path gen_list gen_tuple gen_wiring). Qed.
 Theorem reload_enum_gen : forall m, reload_gen (VEnum m) = VStr m.
 Proof. exact (reload_enum encode_table_gen gen_enum). Qed.
 Theorem reload_path_gen : forall s, reload_gen (VPath s) = VStr s.
 Proof. exact (reload_path encode_table_gen gen_path). Qed.
 
 Theorem tree_compose_gen : forall s x, loops_gen s x -> load_cfg_gen s (Some (to_dict_gen x)) = Ok x.
-Proof. exact (tree_compose str2bool_gen enum_miss_cls_gen encode_table_gen enum_default_as_name_gen tuple_none_guard_gen). Qed.
+Proof. exact (tree_compose str2bool_gen enum_miss_cls_gen encode_table_gen enum_default_as_name_gen wiring_gen gen_wiring). Qed.
 
 Theorem tree_loop_gen : forall sfx s x,
   str_in sfx four_suffixes = true -> in_quantifier s x = true -> side_conditions s x = true ->
   config_loop_gen sfx s x = Ok x.
-Proof. exact (tree_loop str2bool_gen enum_miss_cls_gen encode_table_gen extensions_gen enum_default_as_name_gen tuple_none_guard_gen gen_enum gen_path gen_list gen_tuple gen_exts gen_tng). Qed.
+Proof. exact (tree_loop str2bool_gen enum_miss_cls_gen encode_table_gen extensions_gen enum_default_as_name_gen wiring_gen gen_enum gen_path gen_list gen_tuple gen_exts gen_wiring). Qed.
 
 Theorem tree_meets_spec_gen : forall sfx s x,
   str_in sfx four_suffixes = true -> in_quantifier s x = true -> side_conditions s x = true ->
   spec_loop s x (config_loop_gen sfx s x) = true.
-Proof. exact (tree_meets_spec str2bool_gen enum_miss_cls_gen encode_table_gen extensions_gen enum_default_as_name_gen tuple_none_guard_gen gen_enum gen_path gen_list gen_tuple gen_exts gen_tng). Qed.
+Proof. exact (tree_meets_spec str2bool_gen enum_miss_cls_gen encode_table_gen extensions_gen enum_default_as_name_gen wiring_gen gen_enum gen_path gen_list gen_tuple gen_exts gen_wiring). Qed.
 
-Theorem rooted_same_gen : forall dest sfx s x,
-  str_in sfx four_suffixes = true -> config_loop_rooted_gen dest sfx s x = config_loop_gen sfx s x.
-Proof. exact (rooted_same str2bool_gen enum_miss_cls_gen encode_table_gen extensions_gen enum_default_as_name_gen tuple_none_guard_gen gen_enum gen_path gen_list gen_tuple gen_exts). Qed.
+Theorem routes_same_gen : forall via a dest sfx s x,
+  str_in sfx four_suffixes = true -> config_run_gen via a dest sfx s x = config_loop_gen sfx s x.
+Proof. exact (routes_same str2bool_gen enum_miss_cls_gen encode_table_gen extensions_gen enum_default_as_name_gen wiring_gen gen_enum gen_path gen_list gen_tuple gen_exts gen_wiring). Qed.
 
 (* Optional[Class] = None members *)
 Theorem optional_member_none_gen : forall s,
   member_loads s = true -> load_cfg_gen (SOpt s) (Some (to_dict_gen (ILeaf VNone))) = Ok (ILeaf VNone).
 Proof.
   intros s H. unfold load_cfg_gen, to_dict_gen. cbn [to_dict encode_cfg load_cfg].
-  rewrite (member_loads_ok str2bool_gen enum_miss_cls_gen enum_default_as_name_gen tuple_none_guard_gen gen_tng s H). reflexivity.
+  rewrite (member_loads_ok str2bool_gen enum_miss_cls_gen enum_default_as_name_gen wiring_gen gen_wiring s H). reflexivity.
 Qed.
 
 (* regression witness (repaired by repo commit 41db46a; before it postprocess called tuple(None) and TypeError escaped):
